@@ -2,6 +2,7 @@ package props
 
 import (
 	"fmt"
+	"github.com/compose-spec/compose-go/v2/loader"
 	"os"
 	"sort"
 	"strings"
@@ -18,7 +19,7 @@ type c04 struct{}
 func (c04) ID() string    { return "C04" }
 func (c04) Level() string { return "exploration" }
 func (c04) Rule() string {
-	return "for every attribute of a table of 80 service / network / volume / secret / config attributes classified by the rule the statement gives it (scalar replace, mapping merge, sequence append, KEY=VALUE by key in either spelling, wholesale replace, keyed list, mapping of names with a short list spelling): ALL ways to split a final value of 2-3 atoms into a base part and an override part that the rule maps back to it (replacement from another value or from nothing; every base-only/override-only/both assignment of mapping keys; every cut point of a sequence, with and without a duplicate; every spelling on either side), delivered as two files and as two documents of one file (thorough: 2 overrides, mixed delivery); oracle: load(split) == load(single target document). !reset and !override at a representative of each class; a later file mentioning one attribute leaves every other attribute of the full corpus document unchanged. distinct = distinct (attribute, split) pairs"
+	return "for every attribute of a table of 80 service / network / volume / secret / config attributes classified by the rule the statement gives it (scalar replace, mapping merge, sequence append, KEY=VALUE by key in either spelling, wholesale replace, keyed list, mapping of names with a short list spelling): ALL ways to split a final value of 2-3 atoms into a base part and an override part that the rule maps back to it (replacement from another value or from nothing; every base-only/override-only/both assignment of mapping keys; every cut point of a sequence, with and without a duplicate; every spelling on either side), delivered as two files (also under SkipNormalization / ResolvePaths off / SkipConsistencyCheck / SkipDefaultValues) and as two documents of one file (thorough: 2 overrides, mixed delivery); oracle: load(split) == load(single target document). !reset and !override at a representative of each class; a later file mentioning one attribute leaves every other attribute of the full corpus document unchanged. distinct = distinct (attribute, split) pairs"
 }
 func (c04) Assumptions() []string {
 	return []string{
@@ -433,11 +434,11 @@ func sortKeyedLists(p *types.Project) {
 	}
 }
 
-func c04load(files map[string]string, main []string) (*types.Project, error) {
+func c04load(files map[string]string, main []string, opts ...func(*loader.Options)) (*types.Project, error) {
 	files["s"] = "x"
 	files["e.env"] = "E=1\n"
 	files["f.env"] = "F=1\n"
-	s := &Scn{Files: files, Main: main}
+	s := &Scn{Files: files, Main: main, Opts: opts}
 	root := s.Materialise()
 	p, err := s.LoadAt(root)
 	if err == nil {
@@ -459,7 +460,7 @@ func (c04) Run(c *core.Ctx) {
 	table := c04table()
 	for _, a := range table {
 		for _, sp := range c04splits(a) {
-			for _, delivery := range []string{"files", "documents", "files-dotted-names"} {
+			for _, delivery := range []string{"files", "documents", "files-dotted-names", "files/SkipNormalization", "files/NoResolvePaths", "files/SkipConsistencyCheck", "files/SkipDefaultValues"} {
 				if c.Expired() {
 					return
 				}
@@ -474,12 +475,24 @@ func (c04) Run(c *core.Ctx) {
 					}
 					var ps *types.Project
 					var errS error
+					// the merge rules do not depend on which later loader stages run: same oracle under each option
+					var lopts []func(*loader.Options)
+					switch delivery {
+					case "files/SkipNormalization":
+						lopts = append(lopts, func(o *loader.Options) { o.SkipNormalization = true })
+					case "files/NoResolvePaths":
+						lopts = append(lopts, func(o *loader.Options) { o.ResolvePaths = false })
+					case "files/SkipConsistencyCheck":
+						lopts = append(lopts, func(o *loader.Options) { o.SkipConsistencyCheck = true })
+					case "files/SkipDefaultValues":
+						lopts = append(lopts, func(o *loader.Options) { o.SkipDefaultValues = true })
+					}
 					if delivery != "documents" {
-						ps, errS = c04load(map[string]string{"base.yaml": base, "over.yaml": over}, []string{"base.yaml", "over.yaml"})
+						ps, errS = c04load(map[string]string{"base.yaml": base, "over.yaml": over}, []string{"base.yaml", "over.yaml"}, lopts...)
 					} else {
 						ps, errS = c04load(map[string]string{"base.yaml": base + "---\n" + over}, []string{"base.yaml"})
 					}
-					pt, errT := c04load(map[string]string{"base.yaml": target}, []string{"base.yaml"})
+					pt, errT := c04load(map[string]string{"base.yaml": target}, []string{"base.yaml"}, lopts...)
 					sample := map[string]any{"attribute": a.path, "split": sp.id, "base": base, "override": over, "target": target}
 					if pe, ok := errS.(*core.PanicError); ok {
 						return core.Outcome{Class: "panic", Sample: sample, Viol: &core.Violation{Key: "panic@" + pe.Site, Msg: id + ": " + pe.Error(), Detail: pe.Stack}}
